@@ -341,7 +341,13 @@ func runC10(e *Engine, g G, o RunOpt) RunInfo {
 							}
 							if i%2 == 1 {
 								// an application may also ask for an acknowledgement
-								e.Call("Send <r/>", func() error { return cli.Send(stanza.SMRequest{}) })
+								if n%4 == 3 {
+									// ... as a raw element too: still a stream-management element, never held or counted
+									e.Call("SendRaw <r/>", func() error { return cli.SendRaw("<r xmlns='" + nsSM + "'/>") })
+									e.Probe("c10.raw_sm_element_sent")
+								} else {
+									e.Call("Send <r/>", func() error { return cli.Send(stanza.SMRequest{}) })
+								}
 							}
 						}
 					})
